@@ -32,6 +32,7 @@ type Frame struct {
 	top       bool
 	depth     int
 	spec      *FuncSpec
+	retBlock  int // SSA block of the return instruction being checked (names return-site obligations)
 	li        *loopInfo
 	returns   []retInfo
 	callCount map[string]int
@@ -627,7 +628,9 @@ func (fr *Frame) execBlock(st *State, n node) []*State {
 			for _, rv := range x.Results {
 				res = append(res, fr.val(st, rv))
 			}
-			if fr.top && fr.spec != nil && len(fr.spec.Sites) > 0 {
+			if fr.top && fr.spec != nil && len(fr.spec.Sites) > 0 && x.Block() != fr.fn.Recover {
+				// (the synthetic return of the recover block - reached only after a recovered panic, with no state the
+				// contract could speak about - is not a return site)
 				// at return assert ...: a postcondition that may mention the function's local variables (checked at every
 				// return instruction, after the deferred calls)
 				extra := map[string]Val{}
@@ -636,6 +639,7 @@ func (fr *Frame) execBlock(st *State, n node) []*State {
 				} else if len(res) > 1 {
 					bindResults(extra, fr.fn.Signature, Tuple(res))
 				}
+				fr.retBlock = x.Block().Index
 				fr.siteGeneric(st, "return", "", extra)
 			}
 			fr.returns = append(fr.returns, retInfo{st, res})
